@@ -145,8 +145,11 @@ def check_field_headers(chk, quick):
 
                 def mk():
                     # stand-in for google.api.HttpRule: the verbs form the oneof `pattern` (WhichOneof supported too)
+                    # an additional binding WITH a variable is always present: only the PRIMARY pattern's variables count
+                    extra = NS(get=bstr.S("/v2/{other_var=x/*}"), put="", post="", delete="", patch="",
+                               custom=NS(path="", kind=""), body="", additional_bindings=[])
                     http = NS(get="", put="", post="", delete="", patch="", custom=NS(path="", kind="HEAD"), body="",
-                              additional_bindings=[], WhichOneof=lambda _n, slot=slot: slot[0])
+                              additional_bindings=[extra], WhichOneof=lambda _n, slot=slot: slot[0])
                     for k, s in enumerate(slot):
                         val = uri if k == 0 else bstr.S("/other/{zzz}")
                         if s == "custom":
@@ -193,8 +196,10 @@ def py_uri_variables(uri):
 def real_field_headers(uri, slot):
     from google.api import annotations_pb2
     from gapic.schema import wrappers
+    extra = NS(get="/v2/{other_var=x/*}", put="", post="", delete="", patch="", custom=NS(path="", kind=""), body="",
+               additional_bindings=[])
     http = NS(get="", put="", post="", delete="", patch="", custom=NS(path="", kind="HEAD"), body="",
-              additional_bindings=[], WhichOneof=lambda _n: slot[0])
+              additional_bindings=[extra], WhichOneof=lambda _n: slot[0])
     for k, s in enumerate(slot):
         val = uri if k == 0 else "/other/{zzz}"
         if s == "custom":
